@@ -47,4 +47,11 @@ def decode (cs : List Char) : Option (List Nat) :=
   | some ss => decChunks ss
   | none => none
 
+/-- XML white space -/
+def isSpace (c : Char) : Bool := c == ' ' || c == '\n' || c == '\t' || c == '\r'
+
+/-- `base64.b64decode` (non-validating) skips characters outside the alphabet; in a schema-valid
+xs:base64Binary text those can only be white space (line-wrapped or grouped encodings) -/
+def decodeLenient (cs : List Char) : Option (List Nat) := decode (cs.filter fun c => !isSpace c)
+
 end Zeep.Base64
